@@ -33,6 +33,7 @@ def run(ck, progs):
     for cfg, P in progs.items():
         _transfer(ck, P, cfg)
         _parity(ck, P, cfg)
+        _node_record_value(ck, P, cfg)
         rules_cover.check_array_loops(ck, P, "C20.8", "log/stats.c", "stats_tmps", "global_config.n_threads", 3, "thread")
         _reader_writer(ck, P, cfg)
         _names(ck, P, cfg)
@@ -370,6 +371,33 @@ def _parity(ck, P, cfg):
                             "of these records than the other kind, and the file no longer parses" % (what, X.show(extra[0])[:80], ", ".join(extra[1])), cfg)
             else:
                 ck.holds("C20.7", inst, c.where, "%s is written on every rank in every round a statistics file was requested%s" % (what, " (by the thread with rid 0)" if "rid" in allowed else ""), cfg)
+
+
+def _node_record_value(ck, P, cfg):
+    """The node record of a round carries that round's GVT (the file 'lists non-decreasing GVT values')."""
+    f = P.fn("stats_on_gvt")
+    inst = "node-record-gvt"
+    par = f.params[0]["name"] if f.params else None
+    rec = P.record("stats_node")
+    names = [x["name"] for x in rec["fields"]] if rec else []
+    decls = [v for v in f.walk() if v.k == "VarDecl" and "stats_node" in (v.t or "") and v.sc == "local"]
+    if len(decls) != 1 or "gvt" not in names or par is None:
+        ck.inconclusive("C20.7", inst, f.where, "node record variable not recognised", cfg)
+        return
+    v = decls[0]
+    val = None
+    if v.children and v.children[-1].k == "InitListExpr":
+        kids = v.children[-1].children
+        i = names.index("gvt")
+        if i < len(kids):
+            val = X.strip(kids[i])
+    for a in f.walk():
+        if a.k == "BinaryOperator" and a.op == "=" and X.show(X.strip(a.children[0])) == "%s.gvt" % v.name:
+            val = X.strip(a.children[1])
+    if val is not None and val.k == "DeclRefExpr" and val.name == par:
+        ck.holds("C20.7", inst, v.where, "the record's gvt field is the value stats_on_gvt was called with", cfg)
+    else:
+        ck.violated("C20.7", inst, v.where, "the node record's gvt field is %s, not the GVT of the round: the file no longer lists the GVT values" % ("`%s`" % X.show(val) if val is not None and val.k != "ImplicitValueInitExpr" else "left zero"), cfg)
 
 
 def _rounds(ck, P, cfg):
